@@ -270,7 +270,7 @@ def block_obligations(blocks_mod, name):
         b = importlib.import_module(blocks_mod).BLOCKS[name]
         f = get_function(*b["function"])
         if b.get("slice_targets"):
-            src, target, line = VB.extract_assignments(f, name, b["params"], b["returns"], b["slice_targets"])
+            src, target, line = VB.extract_assignments(f, name, b["params"], b["returns"], b["slice_targets"], records=tuple(b.get("records", ())))
         elif b.get("loop") is None:
             src, target, line = VB.extract_method_body(f, name, b["params"], b["returns"])
         else:
